@@ -361,6 +361,8 @@ def render(fn, twin=False, bind_stores=False):
         lines.append(f"{ind}try:")
         lines += _binds(param_bind_order(fn), ind + IND)
         lines += r_stmts(rest, ind + IND, twin, ctx)
+        if not rest or rest[-1][0] != "return":
+            lines.append(f"{ind}{IND}return H.bind('#value', None)")
         lines.append(f"{ind}except BaseException as e_:")
         lines.append(f"{ind}{IND}H.error(e_)")
         lines.append(f"{ind}{IND}raise")
@@ -747,7 +749,6 @@ def functions(flags=None, want_gen=None):
                 e = int_expr(bound)
                 targets = [t]
                 if nt == 1 and t[0] == "n":
-                    del taken[:]
                     targets.append(name_target())
                 for x in targets:
                     mark(bound, x)
